@@ -95,7 +95,8 @@ def run_stream(tid, mode, kind, d, data, sent, cuts, units, single, g=0):
     for c in list(cuts) + [len(data)]:
         calls.append(rx.feed(data[pos:c], list(units), single))
         pos = c
-    return {"id": tid, "mode": mode, "kind": kind, "dir": d, "g": g, "sent": sent, "calls": calls}
+    return {"id": tid, "mode": mode, "kind": kind, "dir": d, "g": g, "sent": sent, "expframes": [x for x in sent if x["exp"] == 1],
+            "calls": calls}
 
 
 def compositions(n):
@@ -231,11 +232,17 @@ def gen_c11(tier, rng):
     ncase = 40 if tier == "quick" else 400
     for kind in kinds:
         for d in ("req", "rsp"):
+            fixed = {"bin": [b"{}", b"{\x01}", b"xx{}yy", b"}{", b"{{", b"}", b"{\x01\x03}", b"{}{}"],
+                     "ascii": [b":\r\n", b"::", b":0\r\n", b"\r\n:", b":\r", b":01\r\n", b":0103\r\n:", b"\n"],
+                     "rtu": [b"\x00", b"\x01", b"\x01\x03", b"\x01\x10\x00", b"\xff\xff\xff", b"\x01\x18", b"\x01\x2b\x0e"]}[kind]
             for c in range(ncase):
                 f0 = pool.pick(kind, d)
                 gk = rng.choice(["random", "delims", "badsum", "trunc", "foreign", "longcount", "zeros", "ff"])
                 b = f0["bytes"]
-                if gk == "random":
+                if c < len(fixed):
+                    gk = "fixed"
+                    g = fixed[c]
+                elif gk == "random":
                     g = bytes(rng.randrange(256) for _ in range(rng.choice([1, 2, 5, 17, 60])))
                 elif gk == "delims":
                     g = bytes(rng.choice([0x3A, 0x0D, 0x0A, 0x7B, 0x7D, 0x30, 0x46]) for _ in range(rng.choice([1, 2, 3, 7])))
@@ -304,7 +311,7 @@ def gen_c03(tier, rng):
                     rec["bytes"] = list(fr.buildPacket(o))
                 except Exception as ex:
                     rec["raised"] = type(ex).__name__
-                traces.append({"id": "b%d" % k, "mode": "c03", "kind": kind, "dir": d, "g": 0, "sent": [], "calls": [rec]})
+                traces.append({"id": "b%d" % k, "mode": "c03", "kind": kind, "dir": d, "g": 0, "sent": [], "expframes": [], "calls": [rec]})
                 k += 1
                 # (2) the specification's frame for (uid, tid, pdu), whole, to a fresh receiver
                 items.append({"id": "r%d" % k, "kind": kind, "tid": rec["tid"], "pid": rec["pid"], "uid": rec["uid"],
@@ -343,7 +350,7 @@ def gen_c03(tier, rng):
         calls.append({"op": "crc", "data": list(s), "val": int(computeCRC(s))})
         calls.append({"op": "lrc", "data": list(s), "val": int(computeLRC(s))})
     for j in range(0, len(calls), 200):
-        traces.append({"id": "k%d" % j, "mode": "c03", "kind": "rtu", "dir": "req", "g": 0, "sent": [], "calls": calls[j:j + 200]})
+        traces.append({"id": "k%d" % j, "mode": "c03", "kind": "rtu", "dir": "req", "g": 0, "sent": [], "expframes": [], "calls": calls[j:j + 200]})
     return traces
 
 
